@@ -446,10 +446,11 @@ func (fr *Frame) callByContract(ct *Contract, callee *ssa.Function, sig *types.S
 	env := fr.calleeEnv(ct, callee, sig, args, h, invoke)
 	// ghost parameters: bound to the caller's ghost of the same name, else arbitrary
 	for _, g := range ct.Ghosts {
-		parts := strings.Fields(g)
+		parts := strings.SplitN(strings.TrimSpace(g), " ", 2)
 		if len(parts) != 2 {
 			continue
 		}
+		parts[1] = strings.TrimSpace(parts[1])
 		var found *Val
 		for f := fr; f != nil && found == nil; f = f.parent {
 			if v, ok := f.names[parts[0]]; ok && v.S == parts[1] {
